@@ -21,20 +21,22 @@ type Oblig struct {
 	Pos    string
 	Text   string
 	Expect string // "unsat" normally; "sat" for vacuity covers
+	Group  string // hypothesis group (see groupOf)
 	unit   *Unit
 }
 
 // Unit is the encoding of one function under contract.
 type Unit struct {
-	Fn      string
-	Prelude string
-	Lines   []string
-	Obligs  []*Oblig
-	Notes   []string // abstractions / unsupported features met while encoding
-	Trusted []string // trusted contracts used
-	Inlined []string
-	Callees []string // contracts used modularly
-	e       *enc
+	Fn        string
+	Prelude   string
+	Lines     []string
+	LineGroup map[int]string
+	Obligs    []*Oblig
+	Notes     []string // abstractions / unsupported features met while encoding
+	Trusted   []string // trusted contracts used
+	Inlined   []string
+	Callees   []string // contracts used modularly
+	e         *enc
 }
 
 // Query renders the SMT-LIB text of one obligation.
@@ -43,7 +45,10 @@ func (u *Unit) Query(o *Oblig) string {
 	sb.WriteString(prelude)
 	sb.WriteString(u.e.S.decls())
 	dup := map[string]bool{}
-	for _, l := range u.Lines[:o.NLines] {
+	for i, l := range u.Lines[:o.NLines] {
+		if g := u.LineGroup[i]; g != "" && g != o.Group {
+			continue
+		}
 		if strings.HasPrefix(l, "(assert ") {
 			// the same side fact is often emitted at several reads
 			if dup[l] {
@@ -92,12 +97,15 @@ type enc struct {
 	rootFC      *FuncContract
 	safetyProps []string
 	entryState  *State
-	wfree       bool     // a writes clause is in force for this unit
-	writeRefs   []Term   // pre-existing objects that may be written
+	wfree       bool   // a writes clause is in force for this unit
+	writeRefs   []Term // pre-existing objects that may be written
 	writeProps  []string
 	closed      map[string]bool
 	defText     map[string]string
+	curGroup    string
+	lineGroup   map[int]string
 	ghostFns    map[string]bool
+	ghostFnStr  map[string]bool
 	ghostEntry  map[string]Term
 	ghostTy     map[string]types.Type
 }
@@ -107,7 +115,28 @@ func (e *enc) fresh(prefix string) string {
 	return q(fmt.Sprintf("%s!%d", prefix, e.n))
 }
 
-func (e *enc) emit(l string) { e.lines = append(e.lines, l) }
+func (e *enc) emit(l string) {
+	if e.curGroup != "" && strings.HasPrefix(l, "(assert ") {
+		if e.lineGroup == nil {
+			e.lineGroup = map[int]string{}
+		}
+		e.lineGroup[len(e.lines)] = e.curGroup
+	}
+	e.lines = append(e.lines, l)
+}
+
+// groupOf: a clause tagged [..,group:G] belongs to hypothesis group G. The
+// hypotheses of a group are visible only to the obligations of the same group
+// (leaving a hypothesis out of a query is always sound); this keeps unrelated
+// families of quantified invariants out of each other's queries.
+func groupOf(props []string) string {
+	for _, p := range props {
+		if strings.HasPrefix(p, "group:") {
+			return strings.TrimPrefix(p, "group:")
+		}
+	}
+	return ""
+}
 
 func (e *enc) declare(prefix, sort string) Term {
 	n := e.fresh(prefix)
@@ -255,7 +284,7 @@ func (e *enc) oblig1(kind, name string, props []string, hyp, goal Term, pos, tex
 	if c := e.names[full]; c > 1 {
 		full = fmt.Sprintf("%s~%d", full, c)
 	}
-	o := &Oblig{Name: full, Kind: kind, Props: props, Fn: e.unitName, Hyp: hyp, Goal: goal, NLines: len(e.lines), Pos: pos, Text: text, Expect: "unsat"}
+	o := &Oblig{Name: full, Kind: kind, Props: props, Fn: e.unitName, Hyp: hyp, Goal: goal, NLines: len(e.lines), Pos: pos, Text: text, Expect: "unsat", Group: groupOf(props)}
 	e.obligs = append(e.obligs, o)
 	return o
 }
@@ -344,16 +373,16 @@ const (
 )
 
 type havocSpec struct {
-	all         bool                  // every family may be affected
-	affects     map[string]bool       // base family names affected (written or allocated in)
-	writesAll   bool                  // old objects of every affected family may be modified ...
-	writes      map[string]bool       // ... or only of these base families
-	modRefs     []Term                // if non-nil or exact: old objects that may be modified (others are preserved)
-	modFams     []string              // base family of each modRef ("" = unknown)
-	exact       bool                  // modRefs is the complete list of modifiable old objects
-	keepRefs    []Term                // objects preserved whatever happens (non-escaped locals)
-	sinceMark   Term                  // if set: objects allocated before this mark are preserved, younger ones may change
-	unknown     bool                  // frame unknown: any old object of any family may have been modified
+	all         bool            // every family may be affected
+	affects     map[string]bool // base family names affected (written or allocated in)
+	writesAll   bool            // old objects of every affected family may be modified ...
+	writes      map[string]bool // ... or only of these base families
+	modRefs     []Term          // if non-nil or exact: old objects that may be modified (others are preserved)
+	modFams     []string        // base family of each modRef ("" = unknown)
+	exact       bool            // modRefs is the complete list of modifiable old objects
+	keepRefs    []Term          // objects preserved whatever happens (non-escaped locals)
+	sinceMark   Term            // if set: objects allocated before this mark are preserved, younger ones may change
+	unknown     bool            // frame unknown: any old object of any family may have been modified
 	allocBefore Term
 	why         string
 }
